@@ -401,6 +401,6 @@ func TestC17(t *testing.T) {
 	if !enumC17(r) {
 		return
 	}
-	subC17.rapidRun(r, n(30000, 400000), genFixedCase)
+	subC17.rapidRun(r, n(30000, 3000000), genFixedCase)
 	_ = fmt.Sprint
 }
